@@ -110,12 +110,15 @@ def _summarise(res, h, params, validate):
         v["replay"] = _replay(h, params, v["model"], v["obligation"])
     if res.status == "ok" and validate and res.witness is not None and not d["violations"]:
         st, cc, exc = api.run_concrete(h.fn, params, res.witness)
+        nice = getattr(res, "witness_nice", False)
         if st == "ok":
             bad = [o for o in cc.obligations if o.status != "discharged"]
             d["validated"] = 1
-            if bad:
+            if bad and nice:
                 d["validation_mismatch"] = dict(kind="obligation", obligation=bad[0].name, detail=bad[0].detail[:300], model=res.witness)
-        elif st == "exception":
+            elif bad:
+                d["validated"] = 0  # ill-conditioned witness (knife-edge values): float replay is not meaningful
+        elif st == "exception" and nice:
             d["validation_mismatch"] = dict(kind="exception", detail=repr(exc)[:300], model=res.witness)
         elif st == "abort":
             d["validated"] = 0  # knife-edge witness (assumption fails in float arithmetic)
@@ -344,6 +347,8 @@ def run_property(pid: str, tier: str, only=None, verbose=False) -> int:
                     for n in d["notes"]:
                         if n.startswith("reach:"):
                             st[n] += 1
+                        if n == "feasibility-unknown":
+                            st["paths_ok_feasibility_unknown"] += 1
                     if d["status"] == "harness_error":
                         herrors.append(dict(harness=hname, params=params, message=d["message"]))
                     if d["status"] == "inconclusive":
